@@ -62,7 +62,9 @@ theorem C04_request_step (s : Sess) (m : InMsg) (n : Int)
   rw [step_incoming_eq s m hconn _ hr rfl]
   refine ⟨rfl, hs.target, hs.queue, ?_⟩
   simp only [hs.log, hs.hb]
-  simp [Sess.clearLog, numbered]
+  have hnum : ∀ x, numbered s.clearLog x = numbered s x := fun _ => rfl
+  rw [hnum]
+  simp [Sess.clearLog]
 
 /-! ### while recovery is in progress -/
 
